@@ -408,7 +408,7 @@ func (w *World) buildReplay(fr *FuncResult, c *Contract, clause *Clause, o *Obli
 	var b strings.Builder
 	b.WriteString("//go:build verif && go1.18\n\npackage " + pkg.Types.Name() + "\n\nimport \"testing\"\n\n")
 	b.WriteString("// Replay of a verifier counterexample for " + o.Name + "\n")
-	b.WriteString("func TestGovcReplay(t *testing.T) {\n")
+	b.WriteString("func TestGovcReplay(govcT *testing.T) {\n")
 	for _, s := range setup {
 		b.WriteString("\t" + s + "\n")
 	}
@@ -425,7 +425,7 @@ func (w *World) buildReplay(fr *FuncResult, c *Contract, clause *Clause, o *Obli
 	for _, p := range paramNames {
 		b.WriteString("\t_ = " + p + "\n")
 	}
-	fmt.Fprintf(&b, "\tif !(%s) {\n\t\tt.Fatalf(\"GOVC-REPRODUCED: clause [%s] of %s is false on the real code\")\n\t}\n}\n", exprSrc, clause.Raw.Label, strings.ReplaceAll(o.Fn, "\"", ""))
+	fmt.Fprintf(&b, "\tif !(%s) {\n\t\tgovcT.Fatalf(\"GOVC-REPRODUCED: clause [%s] of %s is false on the real code\")\n\t}\n}\n", exprSrc, clause.Raw.Label, strings.ReplaceAll(o.Fn, "\"", ""))
 	dir := filepath.Dir(pkg.GoFiles[0])
 	ov := ""
 	ovPath := ""
